@@ -88,6 +88,7 @@ structure InnerSpec (keyP : Nat → Nat → Int) (i n m : Nat) (md : List Int) (
   le_max : ∀ j, i ≤ j → j < i + m → st.1.getD j i32Max ≤ st.2.2
   arg : st.2.1 < n → i ≤ st.2.1 ∧ st.2.1 < i + m ∧ st.1.getD st.2.1 i32Max = st.2.2
   bound : st.2.1 ≤ n
+  init : st.2.1 = n → st.2.2 = i32Min
 
 theorem getD_set_eq (l : List Int) (j : Nat) (v d : Int) (h : j < l.length) : (l.set j v).getD j d = v := by
   simp [List.getD_eq_getElem?_getD, h]
@@ -103,7 +104,7 @@ theorem inner_spec (keyP : Nat → Nat → Int) (i n : Nat) (md : List Int) (hle
   | zero =>
     intro _
     simp only [List.range_zero, List.map_nil, List.foldl_nil]
-    exact ⟨hlen, fun j h1 h2 => by omega, fun _ _ => rfl, fun j h1 h2 => by omega, fun h => by simp at h, Nat.le_refl n⟩
+    exact ⟨hlen, fun j h1 h2 => by omega, fun _ _ => rfl, fun j h1 h2 => by omega, fun h => by simp at h, Nat.le_refl n, fun _ => rfl⟩
   | succ m ih =>
     intro hm
     have ih := ih (by omega)
@@ -111,15 +112,15 @@ theorem inner_spec (keyP : Nat → Nat → Int) (i n : Nat) (md : List Int) (hle
     generalize ((List.range m).map (· + i)).foldl (rearrangeInner keyP i n) (md, n, i32Min) = st at ih
     obtain ⟨tbl, maxI, maxD⟩ := st
     simp only [List.map_cons, List.map_nil, List.foldl_cons, List.foldl_nil]
-    obtain ⟨len, upd, same, le_max, arg, bound⟩ := ih
-    simp only at len upd same le_max arg bound
+    obtain ⟨len, upd, same, le_max, arg, bound, init⟩ := ih
+    simp only at len upd same le_max arg bound init
     have hj : m + i < tbl.length := by omega
     have hv : tbl.getD (m + i) i32Max = md.getD (m + i) i32Max := same (m + i) (Or.inr (by omega))
     unfold rearrangeInner
     simp only []
     by_cases hgt : min (tbl.getD (m + i) i32Max) (keyP (m + i) (i - 1)) > maxD
     · simp only [hgt, if_true]
-      refine ⟨by simp [len], ?_, ?_, ?_, ?_, ?_⟩ <;> dsimp only
+      refine ⟨by simp [len], ?_, ?_, ?_, ?_, ?_, ?_⟩ <;> dsimp only
       · intro j h1 h2
         by_cases hjm : j = m + i
         · subst hjm; rw [getD_set_eq _ _ _ _ hj, hv]
@@ -135,8 +136,9 @@ theorem inner_spec (keyP : Nat → Nat → Int) (i n : Nat) (md : List Int) (hle
       · intro _
         exact ⟨by omega, by omega, getD_set_eq _ _ _ _ hj⟩
       · omega
+      · intro h; omega
     · simp only [hgt, if_false]
-      refine ⟨by simp [len], ?_, ?_, ?_, ?_, ?_⟩ <;> dsimp only
+      refine ⟨by simp [len], ?_, ?_, ?_, ?_, ?_, ?_⟩ <;> dsimp only
       · intro j h1 h2
         by_cases hjm : j = m + i
         · subst hjm; rw [getD_set_eq _ _ _ _ hj, hv]
@@ -152,6 +154,7 @@ theorem inner_spec (keyP : Nat → Nat → Int) (i n : Nat) (md : List Int) (hle
         refine ⟨a1, by omega, ?_⟩
         rw [getD_set_ne _ _ _ _ _ (by omega)]; exact a3
       · exact bound
+      · exact init
 
 
 /-! ### the outer loop -/
@@ -179,7 +182,7 @@ theorem outer_step (key : Nat → Nat → Int) (n i : Nat) (perm : List Nat) (md
   obtain ⟨plen, mlen, ipos, table, greedy⟩ := inv
   have spec := inner_spec (fun a b => key (perm.getD a 0) (perm.getD b 0)) i n md mlen (n - i) (by omega)
   rw [hfold] at spec
-  obtain ⟨len, upd, same, le_max, arg, bound⟩ := spec
+  obtain ⟨len, upd, same, le_max, arg, bound, _⟩ := spec
   simp only at len upd same le_max arg bound
   obtain ⟨a1, a2, a3⟩ := arg hmax
   -- after the inner loop, md'[j] is the minimal key to the first i colours
@@ -265,5 +268,68 @@ theorem rearrange_farthest_first (key : Nat → Nat → Int) (n : Nat) (out : Li
   intro j _ hj
   simp [List.getD_eq_getElem?_getD, hj, minD]
 
+
+
+/-! ### no out-of-bounds swap when every key exceeds `i32::MIN` -/
+
+theorem minD_gt (key : Nat → Nat → Int) (hk : ∀ a b, i32Min < key a b) (c : Nat) (pre : List Nat) :
+    i32Min < minD key c pre := by
+  unfold minD
+  suffices h : ∀ (pre : List Nat) (m : Int), i32Min < m → i32Min < pre.foldl (fun m t => min m (key c t)) m from
+    h pre i32Max (by decide)
+  intro pre
+  induction pre with
+  | nil => intro m hm; exact hm
+  | cons t ts ih =>
+    intro m hm
+    rw [List.foldl_cons]
+    exact ih _ (by have := hk c t; omega)
+
+theorem rearrangeLoop_total (key : Nat → Nat → Int) (hk : ∀ a b, i32Min < key a b) (n : Nat) :
+    ∀ (fuel i : Nat) (perm : List Nat) (md : List Int),
+      OuterInv key n i perm md → rearrangeLoop key n fuel i perm md ≠ none := by
+  intro fuel
+  induction fuel with
+  | zero => intro i perm md _; simp [rearrangeLoop]
+  | succ fuel ih =>
+    intro i perm md inv
+    unfold rearrangeLoop
+    by_cases hin : i ≥ n
+    · simp [hin]
+    · simp only [hin, if_false]
+      generalize hfold : ((List.range (n - i)).map (· + i)).foldl
+        (rearrangeInner (fun a b => key (perm.getD a 0) (perm.getD b 0)) i n) (md, n, i32Min) = st
+      obtain ⟨md', maxI, maxD⟩ := st
+      simp only
+      have spec := inner_spec (fun a b => key (perm.getD a 0) (perm.getD b 0)) i n md inv.mlen (n - i) (by omega)
+      rw [hfold] at spec
+      have hlt : maxI < n := by
+        rcases Nat.lt_or_ge maxI n with h | h
+        · exact h
+        · exfalso
+          have hb := spec.bound
+          simp only at hb
+          have hmax : maxI = n := by omega
+          have hinit := spec.init hmax
+          have hle := spec.le_max i (Nat.le_refl i) (by omega)
+          have hupd := spec.upd i (Nat.le_refl i) (by omega)
+          simp only at hinit hle hupd
+          have h1 := inv.table i (Nat.le_refl i) (by omega)
+          have h2 := minD_gt key hk (perm.getD i 0) (perm.take (i - 1))
+          have h3 := hk (perm.getD i 0) (perm.getD (i - 1) 0)
+          omega
+      have : ¬ maxI ≥ n := by omega
+      simp only [this, if_false]
+      exact ih (i + 1) _ _ (outer_step key n i perm md inv (by omega) md' maxI maxD hfold hlt)
+
+/-- **No out-of-bounds swap**: whenever every key exceeds `i32::MIN` — true of every key computed
+from a distance that is not `−∞` — `rearrange_sequence` completes, for every length. -/
+theorem rearrange_total (key : Nat → Nat → Int) (hk : ∀ a b, i32Min < key a b) (n : Nat) :
+    rearrange key n ≠ none := by
+  unfold rearrange
+  apply rearrangeLoop_total key hk n n 1
+  refine ⟨by simp, by simp, Nat.le_refl 1, ?_, fun k h1 h2 => by omega⟩
+  intro j _ hj
+  simp [List.getD_eq_getElem?_getD, hj, minD]
 
 end Pastel
